@@ -509,11 +509,18 @@ func (g *structGen) genStruct(depth int) (desc.T, desc.V) {
 	if depth == 0 {
 		mapKeyStyle = rapid.SampledFrom([]int{0, 0, 0, 0, 1, 2, 3}).Draw(g.t, "mapKeyStyle")
 	}
-	n := rapid.IntRange(0, g.maxField).Draw(g.t, "nFields")
+	lo := 0
+	if g.maxField > len(fieldNames) {
+		lo = g.maxField - 3 // a wide type is meant to be wide
+	}
+	n := rapid.IntRange(lo, g.maxField).Draw(g.t, "nFields")
 	ty := desc.T{K: "struct"}
 	val := desc.V{}
 	for i := 0; i < n; i++ {
-		name := fieldNames[i]
+		name := "W" + strconv.Itoa(i)
+		if i < len(fieldNames) {
+			name = fieldNames[i]
+		}
 		var f desc.F
 		var v desc.V
 		c := rapid.IntRange(0, 11).Draw(g.t, "fieldClass")
